@@ -66,6 +66,8 @@ def formula_set(tier):
     leaf = [(F.PX, F.PY, F.X)]
     fs = [f for f in F.F(2, U, B, leaf) if F.has_op(f, F.FUTURE)]
     if quick:
+        fs = [f for i, f in enumerate(fs) if F.size(f) < 2 or i % 3 != 2]
+    if quick:
         Uc = [('not',), ('next',), ('prev',), ('rise',), ('eventually', (0, 1)), ('always', (1, 2)), ('once', (1, 2))]
     else:
         Uc = [u for u in F.unary_ops(((0, 1), (1, 2)), ops=BF_U) if not (u[0] in ('eventually', 'always') and u[1] is None)]
@@ -98,12 +100,14 @@ def unit_cases(tier):
 
 def params(tier):
     if tier == 'quick':
-        return dict(values=(F.V3, F.V2), maxdepth=7, max_transitions=600, validate='first')
-    return dict(values=(F.V3, F.V3), maxdepth=10, max_transitions=12000, validate='first')
+        return dict(values=(F.V3, F.V2), maxdepth=7, max_transitions=400, validate='first')
+    return dict(values=(F.V3, F.V3), maxdepth=9, max_transitions=5000, validate='first')
 
 
 def shards(tier):
     fs = formula_set(tier)
+    if tier != 'quick':
+        fs = [f for i, f in enumerate(fs) if F.size(f) < 2 or i % 2 == 0]
     per = 6 if tier == 'quick' else 2
     out = [{'formulas': [F.to_json(f) for f in fs[i:i + per]]} for i in range(0, len(fs), per)]
     uc = unit_cases(tier)
@@ -111,7 +115,33 @@ def shards(tier):
         out.append({'unit_cases': [(F.to_json(f), st) for f, st in uc[i:i + 5]]})
     for i in range(len(modular_cases(tier))):
         out.append({'modular': i})
+    ds = deep_set(tier)
+    out += [{'formulas': [F.to_json(f)], 'deep': True} for f in ds]
+    ls = long_set(tier)
+    out += [{'formulas': [F.to_json(f) for f in ls[i:i + 2]], 'long': True} for i in range(0, len(ls), 2)]
     return out
+
+
+def long_set(tier):
+    d = [f for f in F.deep_formulas(BF_U, ('since', 'until', 'unless')) + F.wide_formulas(BF_U, ('since', 'until'))
+         if F.has_op(f, F.FUTURE) and site({'formula': F.to_json(f), 'pastify': True}) is None]
+    U = [u for u in F.unary_ops(F.I_QUICK, ops=BF_U) if not (u[0] in ('eventually', 'always') and u[1] is None)]
+    one = [F.ap1(u, F.PX) for u in U if u[0] in F.FUTURE] + [('until', (1, 2), F.PX, F.PY), ('unless', (0, 2), F.PX, F.PY)]
+    return (d[::8] if tier == 'quick' else d) + one
+
+
+def deep_set(tier):
+    """bounds up to 7, horizons up to 12, explored over a two-letter alphabet beyond the horizon"""
+    d = [f for f in F.deep_formulas(BF_U, ('since', 'until', 'unless')) if F.has_op(f, F.FUTURE) and refsem.horizon(f) <= 12
+         and site({'formula': F.to_json(f), 'pastify': True}) is None]
+    return d[::10] if tier == 'quick' else d[::2]
+
+
+def deep_params(f, tier):
+    h = int(refsem.horizon(f))
+    if tier == 'quick':
+        return dict(values=(F.V2, F.V2), maxdepth=h + 5, max_transitions=6000, validate='none')
+    return dict(values=(F.V2, F.V2), maxdepth=h + 7, max_transitions=60000, validate='first')
 
 
 def modular_cases(tier):
@@ -141,6 +171,12 @@ def run_shard(shard, tier, res):
     mod = sys.modules[__name__]
     for fj in shard.get('formulas', []):
         f = F.from_json(fj)
+        if shard.get('long'):
+            c02.run_long(res, mod, f, tier, pastify=True, delay=int(refsem.horizon(f)))
+            res.sample({'spec': 'out = ' + F.pr(f), 'horizon': int(refsem.horizon(f)), 'long_run_length': c02.LONG_N}, 1)
+            continue
+        if shard.get('deep'):
+            p = deep_params(f, tier)
         m = model_for(f, p['values'])
         st, m = c02.explore_formula(res, mod, f, p, model=m)
         res.sample({'spec': m.text, 'horizon': m.delay, 'states': st.states, 'transitions': st.transitions,
